@@ -303,7 +303,11 @@ func (p *Parser) parseExpression(precedence ast.Priority) ast.Node {
 	}
 	prefix := p.prefixParseFns[p.curToken.Type()]
 	if prefix == nil {
-		if !p.peekTokenIs(token.LAMBDA) { // To make () => { ... } without errors.
+		switch {
+		case p.peekTokenIs(token.LAMBDA): // To make () => { ... } without errors.
+		case p.peekTokenIs(token.EOL) && p.curTokenIs(token.RPAREN) && p.prevToken != nil && p.prevToken.Type() == token.LPAREN:
+			p.continuationNeeded = true // () at the end of the line: the => of the lambda may be on the next one.
+		default:
 			p.noPrefixParseFnError(p.curToken)
 		}
 		return nil
